@@ -36,6 +36,7 @@ type RealResult struct {
 	Log         []Entry
 	CacheOps    []CacheOp
 	Hung        bool
+	Stuck       bool   // the call itself did not return
 	Unstable    string // an event payload that reads differently after the execution than when it was delivered
 }
 
@@ -335,23 +336,42 @@ func (r *Runner) runReal(st Step, id int64) *RealResult {
 		cancel()
 		return real
 	}
-	switch entry {
-	case 0:
-		real.Err = ex.Run(runNoExec)
-	case 1:
-		real.Err = ex.RunWithExecution(runExec)
-	case 2:
-		real.Val, real.Err = ex.Get(getNoExec)
-	case 3:
-		real.Val, real.Err = ex.GetWithExecution(fn)
-	case 4:
-		real.Err = ex.RunAsync(runNoExec).Error()
-	case 5:
-		real.Err = ex.RunWithExecutionAsync(runExec).Error()
-	case 6:
-		real.Val, real.Err = ex.GetAsync(getNoExec).Get()
-	case 7:
-		real.Val, real.Err = ex.GetWithExecutionAsync(fn).Get()
+	// the call runs beside a watchdog: every scripted function returns by itself (or when it is cancelled beneath an
+	// always-fires Timeout), so a call that has not returned after 30 s of process time is being held by the library
+	var val int
+	var err error
+	callDone := make(chan struct{})
+	var panicked any
+	go func() {
+		defer close(callDone)
+		defer func() { panicked = recover() }() // handed to the caller's goroutine below
+		switch entry {
+		case 0:
+			err = ex.Run(runNoExec)
+		case 1:
+			err = ex.RunWithExecution(runExec)
+		case 2:
+			val, err = ex.Get(getNoExec)
+		case 3:
+			val, err = ex.GetWithExecution(fn)
+		case 4:
+			err = ex.RunAsync(runNoExec).Error()
+		case 5:
+			err = ex.RunWithExecutionAsync(runExec).Error()
+		case 6:
+			val, err = ex.GetAsync(getNoExec).Get()
+		case 7:
+			val, err = ex.GetWithExecutionAsync(fn).Get()
+		}
+	}()
+	select {
+	case <-callDone:
+		if panicked != nil {
+			panic(panicked)
+		}
+		real.Val, real.Err = val, err
+	case <-harness.After(30 * time.Second):
+		real.Stuck = true
 	}
 	cancel()
 	return real
@@ -364,6 +384,11 @@ func (r *Runner) compareExec(st Step, pred *Prediction, real *RealResult, id int
 	// ---- compare ----
 	if real.Hung {
 		bad("liveness", "the function stayed blocked for 30s beneath an always-fires timeout of %v", FireLimit)
+	}
+	if real.Stuck {
+		bad("liveness", "the call had not returned after 30s although every scripted function returns by itself")
+		r.Ended = true
+		return
 	}
 	if real.Unstable != "" {
 		bad("stats/snapshot", "an event is not a snapshot: %s", real.Unstable)
